@@ -22,7 +22,7 @@ ASSUMPTIONS = ["identity treats an empty context dictionary like no context; inh
                "result is stored under the ordinary key; observed, outside the statement)"]
 COMPONENTS = {"real": ["memento_run_batch context inheritance, RecursiveContext, reference hashing with _memento_context_args, modifiers", "fork lifetimes"],
               "stub": ["generated program", "uuid4, clock"]}
-REACH = ["runs", "runs_reexecuting_nothing", "runs_reexecuting_subset", "ctx_edges", "empty_ctx_edges", "prevent_runs",
+REACH = ["inner_prevent_edges", "runs", "runs_reexecuting_nothing", "runs_reexecuting_subset", "ctx_edges", "empty_ctx_edges", "prevent_runs",
          "prevent_nested_calls_refused", "absent_context_probes", "restarts"]
 
 ROOT_CTXS = [None, {"k": 1}, {"k": 2}, {"r": "A"}, {"r": "B", "k": 1}, {}]
@@ -31,7 +31,7 @@ UNIVERSE = [None, {"k": 1}, {"k": 2}, {"k": 1, "j": "a"}, {"r": "A"}, {"r": "B",
 
 def gen_case(seed):
     rng = core.stream(seed, "gen")
-    prog = calltree.gen_tree(rng, feats={"w_ctx": 3, "p_fail": 0.12, "w_batch": 1.0, "w_map": 0.4, "p_res": 0.0})
+    prog = calltree.gen_tree(rng, feats={"w_ctx": 3, "w_prevent": 0.8, "p_fail": 0.12, "w_batch": 1.0, "w_map": 0.4, "p_res": 0.0})
     ctxs = rng.sample(ROOT_CTXS, rng.randrange(1, 4))
     runs = []
     for _ in range(rng.randrange(2, 7)):
@@ -108,6 +108,8 @@ def execute(case):
         stats[k] = stats.get(k, 0) + n
     for n in prog["nodes"]:
         for e in n["edges"]:
+            if e["mode"] == "prevent":
+                bump("inner_prevent_edges")
             if e["mode"] == "ctx":
                 bump("ctx_edges")
                 if e["ctx"] == {}:
